@@ -29,6 +29,12 @@ var currentClassBs bs_domain.ClassBadSmellInfo
 func NewBadSmellListener() *BadSmellListener {
 	currentClz = ""
 	currentPkg = ""
+	currentClzType = ""
+	currentClassBs = bs_domain.ClassBadSmellInfo{}
+	imports = nil
+	fields = make(map[string]string)
+	localVars = make(map[string]string)
+	formalParameters = make(map[string]string)
 	methods = nil
 	methodCalls = nil
 	currentClzImplements = nil
